@@ -16,7 +16,10 @@ AST + import, regenerated on every run:
 * whether `ipmi.close()` sits inside the try that carries the except clauses;
 * the printing handlers: does `print_link_state` tolerate None, does `sdr_show` guard the optional record
   attributes, which exception classes are caught between `convert_sensor_raw_to_value` and `main`;
-* sdr.py: record type -> class -> does its `_from_data` set an ID string / an entity.
+* sdr.py: record type -> class -> does its `_from_data` set an ID string / an entity;
+* every `ipmi.get_sensor_reading(<rec>.number[, <lun>])` a table entry reaches (through module-level helpers, with
+  the helper's parameters substituted by the caller's arguments): the `if <rec>.type is SDR_TYPE_…` branch it sits
+  in and its LUN argument (none / `<rec>.owner_lun` / an integer literal), and the default of the API's `lun`.
 
 Fails closed: any shape outside this grammar raises TieBroken.
 """
@@ -740,6 +743,138 @@ def _sdr_classes():
     return out, (default,) + facts(default)
 
 
+# ------------------------------------------------------------------ which sensor is read
+READ = 'get_sensor_reading'
+
+
+class _Subst(ast.NodeTransformer):
+    """helper parameters -> the caller's argument expressions; every other local name of a helper is made
+    unmistakable (`<helper>:<name>`) so that it can never be taken for a variable of the handler"""
+
+    def __init__(self, env, scope):
+        self.env, self.scope = env, scope
+
+    def visit_Name(self, node):
+        if node.id in self.env:
+            return self.env[node.id]
+        if self.scope:
+            return ast.Name(id='%s:%s' % (self.scope, node.id), ctx=ast.Load())
+        return node
+
+
+def _subst(expr, env, scope):
+    import copy
+    return _Subst(env, scope).visit(copy.deepcopy(expr))
+
+
+def _type_branch(node, par, env, scope, where):
+    """innermost enclosing `if <rec>.type is|== <SDR_TYPE_…>` whose BODY holds `node` -> (record type, rec name)"""
+    import pyipmi.sdr as S
+    x = node
+    while x in par:
+        up = par[x]
+        if isinstance(up, ast.If) and any(x is b for b in up.body):
+            t = up.test
+            if isinstance(t, ast.Compare) and len(t.ops) == 1 and isinstance(t.left, ast.Attribute) \
+                    and t.left.attr == 'type':
+                if not isinstance(t.ops[0], (ast.Is, ast.Eq)):
+                    raise TieBroken('%s: record-type test around %s is not `is` / `==`' % (where, READ))
+                c = t.comparators[0]
+                cname = c.attr if isinstance(c, ast.Attribute) else c.id if isinstance(c, ast.Name) else None
+                val = c.value if isinstance(c, ast.Constant) else getattr(S, cname, None) if cname else None
+                if not isinstance(val, int) or isinstance(val, bool):
+                    raise TieBroken('%s: record type of the branch around %s is not a constant of sdr.py' % (where, READ))
+                rec = _subst(t.left.value, env, scope)
+                if not isinstance(rec, ast.Name):
+                    raise TieBroken('%s: the record tested around %s is not a plain variable' % (where, READ))
+                return val, rec.id
+        x = up
+    return None
+
+
+def _sensor_reads_in(fn, ipmi, env, scope, inherited, module_funcs, where, depth, out):
+    if depth > 6:
+        raise TieBroken('%s: helper recursion around %s' % (where, READ))
+    par = _parents(fn)
+    calls = [n for n in ast.walk(fn) if isinstance(n, ast.Call)]
+    calls.sort(key=lambda n: (n.lineno, n.col_offset))
+    for n in calls:
+        f = n.func
+        if isinstance(f, ast.Attribute) and f.attr == READ:
+            if not _is_name(f.value, ipmi):
+                raise TieBroken('%s: %s called on something that is not the Ipmi object' % (where, READ))
+            br = _type_branch(n, par, env, scope, where) or inherited
+            if br is None:
+                raise TieBroken('%s: %s outside an `if <rec>.type is SDR_TYPE_…` branch' % (where, READ))
+            rtype, rec = br
+            if any(isinstance(a, ast.Starred) for a in n.args) or any(k.arg is None for k in n.keywords):
+                raise TieBroken('%s: */** in a %s call' % (where, READ))
+            kw = dict((k.arg, k.value) for k in n.keywords)
+            if len(n.args) > 2 or set(kw) - {'sensor_number', 'lun'} or (len(n.args) >= 1 and 'sensor_number' in kw) \
+                    or (len(n.args) == 2 and 'lun' in kw):
+                raise TieBroken('%s: arguments of %s are outside the grammar' % (where, READ))
+            num = n.args[0] if n.args else kw.get('sensor_number')
+            num = _subst(num, env, scope) if num is not None else None
+            if not (isinstance(num, ast.Attribute) and num.attr == 'number' and _is_name(num.value, rec)):
+                raise TieBroken('%s: %s is not called with the number of the record its branch tests' % (where, READ))
+            lun = n.args[1] if len(n.args) == 2 else kw.get('lun')
+            if lun is None:
+                arg = 'LunArg.default'
+            else:
+                lun = _subst(lun, env, scope)
+                if isinstance(lun, ast.Attribute) and lun.attr == 'owner_lun' and _is_name(lun.value, rec):
+                    arg = 'LunArg.ownerLun'
+                elif isinstance(lun, ast.Constant) and isinstance(lun.value, int) and not isinstance(lun.value, bool) \
+                        and lun.value >= 0:
+                    arg = '(LunArg.const %d)' % lun.value
+                else:
+                    raise TieBroken('%s: the LUN argument of %s (%s) is outside the grammar' % (
+                        where, READ, ast.unparse(lun)))
+            out.append((rtype, arg))
+        elif isinstance(f, ast.Name) and f.id in module_funcs and any(_is_name(a, ipmi) for a in n.args):
+            helper = module_funcs[f.id]
+            hp = [a.arg for a in helper.args.args]
+            if any(isinstance(a, ast.Starred) for a in n.args) or any(k.arg is None for k in n.keywords) \
+                    or len(n.args) > len(hp):
+                raise TieBroken('%s: cannot map the arguments of helper %s' % (where, f.id))
+            env2 = {}
+            dflts = helper.args.defaults
+            for p_, dv in zip(hp[len(hp) - len(dflts):], dflts):
+                if isinstance(dv, ast.Constant):
+                    env2[p_] = dv           # a parameter the caller leaves out has its (constant) default
+            for p_, a in list(zip(hp, n.args)) + [(k.arg, k.value) for k in n.keywords]:
+                env2[p_] = _subst(a, env, scope)
+            idx = [i for i, a in enumerate(n.args) if _is_name(a, ipmi)][0]
+            br = _type_branch(n, par, env, scope, where) or inherited
+            _sensor_reads_in(helper, hp[idx], env2, f.id, br, module_funcs, where + '>' + f.id, depth + 1, out)
+
+
+def _sensor_reads(cmd_nodes, module_funcs):
+    """[(command, record type, LunArg)] in table / source order, and the default of the API's `lun` parameter"""
+    import pyipmi
+    out = []
+    for name, fnode in cmd_nodes:
+        got = []
+        _sensor_reads_in(fnode, fnode.args.args[0].arg, {}, None, None, module_funcs, name, 0, got)
+        out.extend((name, t, a) for t, a in got)
+    dflt = 0
+    if out:
+        try:
+            ps = inspect.signature(pyipmi.Ipmi.get_sensor_reading).parameters
+        except (TypeError, ValueError, AttributeError):
+            raise TieBroken('no signature for Ipmi.%s' % READ)
+        names = [p_ for p_ in ps if p_ != 'self']
+        if len(names) >= 2 and names[1] == 'lun':
+            dflt = ps['lun'].default
+            if not isinstance(dflt, int) or isinstance(dflt, bool) or dflt < 0:
+                raise TieBroken('Ipmi.%s: `lun` has no integer default' % READ)
+        elif any(a == 'LunArg.default' for _, _, a in out):
+            raise TieBroken('Ipmi.%s: second parameter is not `lun` (no default LUN to read off)' % READ)
+    # an integer literal equal to the API's default names the same LUN as no argument at all
+    out = [(c, t, 'LunArg.default' if a == '(LunArg.const %d)' % dflt else a) for c, t, a in out]
+    return out, dflt
+
+
 # ---------------------------------------------------------------------------------------- API
 def _api(intern):
     import pyipmi
@@ -855,7 +990,9 @@ def snapshot():
                 'state': _state_guard(module_funcs),
                 'catch': _conv_catch(cmd_nodes, module_funcs)}
     sdr_classes, sdr_default = _sdr_classes()
-    return {'api': api, 'commands': cmds, 'main': main, 'chassis': chassis, 'interfaces': ifaces,
+    sensor_reads, sensor_lun_default = _sensor_reads(cmd_nodes, module_funcs)
+    return {'sensor_reads': sensor_reads, 'sensor_lun_default': sensor_lun_default,
+            'api': api, 'commands': cmds, 'main': main, 'chassis': chassis, 'interfaces': ifaces,
             'intern': intern, 'errors': [n for n, _ in errors], 'arg_convs': _arg_convs(cmd_nodes),
             'handlers': handlers, 'sdr_classes': sdr_classes, 'sdr_default': sdr_default}
 
@@ -948,6 +1085,13 @@ def render(snap, namespace='PyIpmi.Gen.Cli', header=None):
     out.append('/-- every other record type: %s -/' % snap['sdr_default'][0])
     out.append('def sdrDefault : Bool × Bool := (%s, %s)' % (_bool(snap['sdr_default'][1]), _bool(snap['sdr_default'][2])))
     out.append('')
+    if 'sensor_reads' in snap:
+        out.append('/-- every `ipmi.get_sensor_reading(<rec>.number[, <lun>])` a table entry reaches: entry, record-type branch, LUN argument -/')
+        out.append('def sensorReads : List SensorRead := [' + ', '.join(
+            '⟨%s, 0x%02x, %s⟩' % (_lean_str(c), t, a) for c, t, a in snap['sensor_reads']) + ']')
+        out.append('/-- default of the `lun` parameter of `Ipmi.get_sensor_reading` -/')
+        out.append('def sensorReadDefaultLun : Nat := %d' % snap['sensor_lun_default'])
+        out.append('')
     out.append('/-- `NAME` of every class in `pyipmi.interfaces.INTERFACES` -/')
     out.append('def interfaces : List Str := [' + ', '.join('/- %s -/ %s' % (n, _codes(n)) for n in snap['interfaces']) + ']')
     out.append('')
